@@ -79,12 +79,15 @@ Proof.
   - reflexivity.
   - unfold langle_name in H. apply app_inv_head in H. discriminate H.
   - unfold langle_name in H. apply app_inv_head in H. discriminate H.
-  - unfold langle_name in H. apply app_inv_head in H. cbn [app] in H. inversion H as [H1].
+  - unfold langle_name in H. apply app_inv_head in H. cbn [app] in H. pose proof (f_equal (@tl N) H) as H1. cbn [tl] in H1.
     apply app_inv_tail in H1.
-    assert (E : N.of_nat i = N.of_nat j).
-    { rewrite <- (dec_digits_val 19 (N.of_nat i) []) by (change (10 ^ N.of_nat 20) with (10 ^ 20); lia).
-      rewrite <- (dec_digits_val 19 (N.of_nat j) []) by (change (10 ^ N.of_nat 20) with (10 ^ 20); lia).
-      rewrite H1. reflexivity. }
+    assert (Bi : N.of_nat i < 10 ^ N.of_nat 20) by (change (10 ^ N.of_nat 20) with (10 ^ 20); lia).
+    assert (Bj : N.of_nat j < 10 ^ N.of_nat 20) by (change (10 ^ N.of_nat 20) with (10 ^ 20); lia).
+    pose proof (dec_digits_val 19 (N.of_nat i) [] Bi) as Ei.
+    pose proof (dec_digits_val 19 (N.of_nat j) [] Bj) as Ej.
+    change (valN_go (N.of_nat i) []) with (N.of_nat i) in Ei.
+    change (valN_go (N.of_nat j) []) with (N.of_nat j) in Ej.
+    rewrite H1 in Ei. assert (E : N.of_nat i = N.of_nat j) by congruence.
     apply Nat2N.inj in E. congruence.
 Qed.
 
@@ -317,8 +320,8 @@ Proof.
     destruct (str_infixb (ph_nt ph) s) eqn:E; [|reflexivity]. apply str_infixb_spec in E.
     exfalso. apply (Hph (k, al) s Hr Hs). exact E. }
   rewrite Hid. rewrite dict_set_fresh by exact Hfree.
-  destruct (mem_str free (reachable (g ++ [(free, [[c_lt]])]))) eqn:Hm; [|reflexivity].
-  exfalso. apply mem_str_spec in Hm. unfold reachable in Hm.
+  match goal with |- context [mem_str ?a ?b] => assert (Hm : mem_str a b = false) end; [|rewrite Hm; reflexivity].
+  apply mem_str_false. intros Hm. unfold reachable in Hm.
   assert (HP : free = s_start \/ In free (map fst g)).
   { apply (reach_iter_inv (g ++ [(free, [[c_lt]])]) (fun n => n = s_start \/ In n (map fst g)))
       with (fuel := S (S (length (g ++ [(free, [[c_lt]])])))) (seen := [s_start]); [| |exact Hm].
